@@ -315,5 +315,5 @@ fn run_inner(case: &Case, wall: &Rc<Cell<u64>>) -> Outcome {
 }
 
 pub fn parts() -> Vec<Box<dyn DynPart>> {
-    vec![Box::new(Gen::new(C09, 400_000, 30_000_000))]
+    vec![Box::new(Gen::new(C09, 2_000_000, 200_000_000))]
 }
